@@ -88,6 +88,9 @@ def programs():
         add(feat, T + body, [("member-value", "referenced", {".fpbuiltins": "release"})], extra={".fpbuiltins": "debug"})
     add("predeclared-module-through-helper", "def show(m):\n    return m.cc\n" + T + "    print(show(tools))\n",
         [("member-value", "referenced", {".fpbuiltins": "release"})], extra={".fpbuiltins": "debug"})
+    # a function is a hashable value: it may be a dictionary key or a set element
+    add("dict-keyed-by-function", "def a():\n    pass\nTABLE = {a: \"one\"}\n" + T + "    print(TABLE[a])\n",
+        [("value-under-function-key", "referenced", {"BUILD.dawn": "def a():\n    pass\nTABLE = {a: \"two\"}\n" + T + "    print(TABLE[a])\n"})])
     add("unassigned-free-variable", "def outer():\n    def inner():\n        return y\n    if False:\n        y = 1\n    return inner\nG = outer()\n" + T + "    print(G)\n")
     add("self-containing-list", "X = [1]\nX.append(X)\n" + T + "    print(len(X))\n",
         [("element", "referenced", {"BUILD.dawn": "X = [2]\nX.append(X)\n" + T + "    print(len(X))\n"})])
